@@ -83,7 +83,7 @@ _POL_NOTE = ('Trusted: Lean kernel; translator (sketch mixers); exact white-box 
              'histories and all event orders is enforced by the per-call audit of every run (exact model = implementation state) and at real quiescent points, not mechanised.')
 NOTES['C04'] = {'technique': 'Lean 4 proof over an exact transcription of policy.go, for every state reachable by ANY event order: after evictNodes weightedSize (= sum of tracked weights) <= maximum or only zero-weight entries remain; zero-weight entries never evicted; oversized entry not retained; unlink/add accounting lemmas + exact white-box differential with per-call audit + concurrent quiescence audit + SEQ bound oracle',
     'engine': 'proof+unit-policy+conc-policy+seq',
-    'text': 'Props.C04 over Proofs.PolicyBound/PolicyWeight/PolicyLink (Reach = any order of add/update/delete events, reads, SetMaximum, evictions, climbs): (1) after evictNodes, weightedSize.toNat <= maximum.toNat or every tracked entry has weight 0 - by the victim-pointer invariant of evictFromMain (everything the pointer passed was evicted or weighs zero), under the hypothesis that the model loop bound 4n+16 was not hit, which the driver evaluates on every evictNodes of every run; (2) weightedSize is the uint64 sum of the tracked weights; (3) evictNodes never hands a zero-weight node to the eviction callback; (4) an alive node heavier than the maximum is evicted by add and ends dead and unlinked. Also, for every policy state: an unknown (unlinked) node costs nothing on removal - no counter changes, no deque changes (no uint64 underflow); after makeDead a node is in no deque; an out-of-order add changes no deque and no counter; the eviction loop skips zero-weight entries before any eviction decision. '
+    'text': 'Props.C04 over Proofs.PolicyBound/PolicyWeight/PolicyLink (Reach = any order of add/update/delete events, reads, SetMaximum, evictions, climbs): (1) after evictNodes, weightedSize.toNat <= maximum.toNat or every tracked entry has weight 0 - by the victim-pointer invariant of evictFromMain (everything the pointer passed was evicted or weighs zero), the model loop bound 4n+16 (the code loop is unbounded) is proven never to be reached (Proofs.PolicyFuel: a potential every iteration decreases), so the statement is unconditional; (2) weightedSize is the uint64 sum of the tracked weights; (3) evictNodes never hands a zero-weight node to the eviction callback; (4) an alive node heavier than the maximum is evicted by add and ends dead and unlinked. Also, for every policy state: an unknown (unlinked) node costs nothing on removal - no counter changes, no deque changes (no uint64 underflow); after makeDead a node is in no deque; an out-of-order add changes no deque and no counter; the eviction loop skips zero-weight entries before any eviction decision. '
             'Tie: UNIT-policy reproduces deques/counters/evictions exactly (in-order and out-of-order), audit incl. "weightedSize <= maximum after evictNodes unless only zero-weight entries remain"; CONC-policy audits real concurrent runs; SEQ checks the bound after CleanUp against Spec incl. SetMaximum and weight-changing updates.',
     'note': _POL_NOTE}
 NOTES['C05'] = {'technique': 'Lean 4 proof by induction over ALL event orders (Reach: linked = introduced and alive, never dead, linked once; weightedSize = sum of linked weights in uint64) + exact white-box differential with per-call audit + concurrent quiescence audit + SEQ view oracles',
